@@ -40,6 +40,17 @@ class Facts(Roles):
                 out.append((tuple(self.conds(s)), str(self.at(s, s.value)) if s.value is not None else "None"))
         return sorted(out)
 
+    def emits(self, target: str) -> List[tuple]:
+        """(path condition, 'append|extend <normal form>') of every `<target>.append(x)` / `.extend(xs)` / `target += xs`"""
+        out = []
+        for s in self.stmts:
+            if isinstance(s, ast.Expr) and isinstance(s.value, ast.Call) and len(s.value.args) == 1 and \
+                    dotted(s.value.func) in (target + ".append", target + ".extend"):
+                out.append((tuple(self.conds(s)), "%s %s" % (s.value.func.attr, self.at(s, s.value.args[0]))))
+            elif isinstance(s, ast.AugAssign) and isinstance(s.op, ast.Add) and _tname(s.target) == target:
+                out.append((tuple(self.conds(s)), "extend %s" % self.at(s, s.value)))
+        return sorted(out)
+
     def returns(self) -> List[str]:
         return [str(self.at(s, s.value)) for s in self.stmts if isinstance(s, ast.Return) and s.value is not None]
 
